@@ -172,6 +172,45 @@ def gen_ops(ctx):
         last = [8, 0, 0, 8, ex, ey] if i % 3 else [8, 1, -1, 8, ex, ey]
         ms.append(last)
         ops.append("resc %s %s %d %d %d %d %d %s" % (vt, smp, w, h, dw, dh, n, " ".join(str(x) for m in ms for x in m)))
+    # ... followed by a self multiplication m *= m (grid 1/8^(2n)); the factors are rejected until (M..)^2 maps the destination centre into the source
+    for i in range(200 if th else 32):
+        vt, smp = RVT[i % len(RVT)], "bn"[(i // len(RVT)) % 2]
+        w, h, dw, dh = r.range(2, 6), r.range(2, 6), r.range(2, 6), r.range(2, 6)
+        n = 1 + (i % 2)
+        for attempt in range(4000):
+            ms = [[r.range(-12, 12) for _ in range(4)] + [r.range(-24, 24), r.range(-24, 24)] for _ in range(n)]
+            if any(m[1] == 0 or m[4] == 0 or m[0] * m[3] - m[1] * m[2] == 0 for m in ms): continue
+            P = [Fr(1), Fr(0), Fr(0), Fr(1), Fr(0), Fr(0)]
+            for m in ms: P = mulq(P, [Fr(x, 8) for x in m])
+            P = mulq(P, P)
+            cx, cy = Fr(dw - 1, 2), Fr(dh - 1, 2)
+            ix, iy = P[0] * cx + P[2] * cy + P[4], P[1] * cx + P[3] * cy + P[5]
+            if 0 <= ix <= w - 1 and 0 <= iy <= h - 1 and abs(P[0] * P[3] - P[1] * P[2]) > Fr(1, 20): break
+        else: continue
+        ops.append("rescs %s %s %d %d %d %d %d %s" % (vt, smp, w, h, dw, dh, n, " ".join(str(x) for m in ms for x in m)))
+    # --- round trip at pixel level: unimodular INTEGER maps composed with *= (quarter turns, flips, shears, integer translations), nearest neighbour forward,
+    #     then inverse(m) backward: every source pixel whose preimage lies in the intermediate image must come back
+    UNI = [[0, 1, -1, 0], [0, -1, 1, 0], [-1, 0, 0, -1], [1, 1, 0, 1], [1, 0, 1, 1], [1, -1, 0, 1], [-1, 0, 0, 1], [1, 0, 0, -1], [2, 1, 1, 1], [1, 2, 1, 3], [0, 1, 1, 0]]
+    for i in range(300 if th else 48):
+        vt = VT[i % len(VT)]
+        w, h = r.range(1, 6), r.range(1, 6)
+        n = 1 + i % 3
+        ms = [r.choice(UNI) + [r.range(-4, 4), r.range(-4, 4)] for _ in range(n)]
+        P = [Fr(1), Fr(0), Fr(0), Fr(1), Fr(0), Fr(0)]
+        for m in ms: P = mulq(P, [Fr(x) for x in m])
+        det = P[0] * P[3] - P[1] * P[2]
+        # translate so that the preimage of the source's centre is the centre of a destination big enough to hold most of the preimage
+        dw, dh = r.range(max(w, h), max(w, h) + 4), r.range(max(w, h), max(w, h) + 4)
+        cu, cv = (w - 1) // 2, (h - 1) // 2
+        qx = det * (P[3] * cu - P[2] * cv + (P[2] * P[5] - P[3] * P[4])); qy = det * (-P[1] * cu + P[0] * cv + (P[1] * P[4] - P[0] * P[5]))
+        # append a translation T: (P*T)^-1 (u) = P^-1(u - t): choose t so that the preimage of the centre is (dw//2, dh//2): solve by shifting u
+        tx, ty = dw // 2 - qx, dh // 2 - qy          # shift in destination coordinates = a translation applied FIRST
+        ms = [[1, 0, 0, 1, int(-tx), int(-ty)]] + ms
+        ops.append("resrt %s %d %d %d %d %d %s" % (vt, w, h, dw, dh, len(ms), " ".join(str(x) for m in ms for x in m)))
+    # --- matrix3x2<float>: product, compound product, self product, inverse, transform (binary32 replay)
+    for i, a in enumerate(full[:60] if not th else full):
+        b = full[(i * 5 + 1) % len(full)]
+        for k in "mesit": ops.append("fop %s %s" % (k, " ".join(map(b32, a + b))))
     # ... and with double matrices: translate(-c) , rotate(t), scale, translate(c') about the destination / source centres, and random full matrices
     for i in range(300 if th else 40):
         vt, smp = VT[i % len(VT)], "bn"[(i // len(VT)) % 2]
@@ -196,7 +235,8 @@ def nontrivial(op):
 def points_of(op):
     w = op.split()
     if w[0] in ("bil", "near", "tap"): return int(w[8])
-    if w[0] in ("res", "rsz", "resf", "resg", "resc", "resmf"): return int(w[5]) * int(w[6])
+    if w[0] in ("res", "rsz", "resf", "resg", "resc", "rescs", "resmf"): return int(w[5]) * int(w[6])
+    if w[0] == "resrt": return int(w[2]) * int(w[3]) + int(w[4]) * int(w[5])
     if w[0] == "bilc": return (len(w) - 7) // 2
     return 1
 
@@ -243,6 +283,12 @@ def run(ctx, ops=None):
         extra["ops_aborted_in_gil"] = sum(1 for r in impl if r.startswith(("crash", "ub:", "assert", "harness-gave-up", "timeout")))
         extra["constant_source_samples"] = total
         extra["constant_source_samples_not_equal_to_the_constant"] = below
+        comp = collections.Counter()
+        for o, r in zip(ops, impl):
+            if o.split()[0] in ("resc", "rescs", "resmf", "resrt"):
+                for t in r.split(" | ")[-1].split():
+                    comp["equal_to_prefill" if set(t.split(",")) == {"1792" if o.split()[1] == "g32f" else "7"} else "written"] += 1
+        extra["pixels_through_maps_composed_with_compound_multiplication"] = dict(comp)
         taps = collections.Counter()
         for o, r in zip(ops, impl):
             if o.startswith("tap b"):
@@ -257,7 +303,7 @@ def run(ctx, ops=None):
              "(library loop vs direct sample() loop vs model); resample_pixels with random rotation-scale-translation double matrices and with non-dyadic scale/translate double and float matrices whose images hit integer / half-integer source boundaries, incl. long float rows (model repeats the IEEE operations); bilinear on constant / two-level sources at off-grid float and double points (Float32 / Float replay); resize_view same size and other sizes; matrix3x2<double> product / associativity / inverse / transform / round trip / generators on random "
              "well-conditioned matrices (bit patterns); the compound operator*= (mmuleq, chains mseq from the default-constructed identity, self multiplication m *= m), operator*(point, matrix) with double and integer points, "
              "the point overloads of get_translate / get_scale, center_rotate, matrix3x2<long> product / *= / self (iop), resample_pixels through maps composed step by step with *= "
-             "(resc: entries k/8, Spec judged exactly at transform(M1*..*Mn,(x,y)); resmf: double matrices). non-trivial = grid row that crosses the view, non-identity map, any matrix op (distinct op lines counted)",
+             "(resc: entries k/8, Spec judged exactly at transform(M1*..*Mn,(x,y)); rescs: followed by m *= m; resmf: double matrices; resrt: unimodular integer maps, forward then inverse(m) backward, every pixel must come back), matrix3x2<float> product / *= / self / inverse / transform (fop). non-trivial = grid row that crosses the view, non-identity map, any matrix op (distinct op lines counted)",
         samples=samples, distinct_nontrivial=distinct, assumptions=ASSUME, trusted_base=vlib.TRUSTED_BASE + [
             "translated kernels (tools/cxx2lean.py, regenerated every run): matrix3x2 operator=, operator*, operator*=, operator*(point, matrix), get_translate / get_scale (all overloads), instantiated with T = long; "
             "the samplers, resample_pixels, inverse, get_rotate, center_rotate and the floating point instantiations are hand-modelled and tied by the correspondence run only",
